@@ -214,6 +214,16 @@ def check_case(chk, st, tr, F, interp, with_table, system, cell_opt, rng, sample
             elif not eq(df["P"].iloc[r], Sym.of(wantP[r]) * U["GPA"], name + ":P"):
                 fails.append("P column is not -d(fit of E)/dV in GPa")
                 break
+        # density: whenever a cell mass is known (the table header's, or the --cellmass option also without a table)
+        cell_any = env.cell_opt if cell_opt else (env.mcell if with_table else None)
+        if cell_any is not None:
+            if "density" not in df.columns:
+                fails.append("no density column although a cell mass is given")
+            else:
+                for r in range(n):
+                    if not eq(df["density"].iloc[r], cell_any / Sym.of(Vb[r]) * U["GCM3"], name + ":density"):
+                        fails.append("density is not (cell mass%s)/V in g/cm^3" % (" option" if cell_opt else ""))
+                        break
         if with_table:
             cell = env.cell_opt if cell_opt else env.mcell
             txs = env.eps(env.tvols[0], numpy.array(env.tvols))
@@ -231,10 +241,6 @@ def check_case(chk, st, tr, F, interp, with_table, system, cell_opt, rng, sample
                     if not eq(df[k].iloc[r], col[r], name + ":" + k):
                         fails.append("%s is not the finite-strain fit of the static table at the row's volume" % k)
                         break
-            for r in range(n):
-                if not eq(df["density"].iloc[r], cell / Sym.of(Vb[r]) * U["GCM3"], name + ":density"):
-                    fails.append("density is not (cell mass%s)/V in g/cm^3" % (" option" if cell_opt else ""))
-                    break
             # VRH and velocities from the tensor of the row
             recs = proxy.inv_records
             if len(recs) != n:
@@ -377,6 +383,27 @@ def replay_cli(chk, rng, what, only_mode=None):
                         chk.violation("run-static:cellmass-velocities", "with --cellmass 123.25 the column %s does not satisfy rho v^2 = modulus with the "
                                       "density of that mass (v^2 rho / modulus = %.4f)" % (col, float((d2[col].to_numpy() ** 2 * rho2 / mod.to_numpy())[0])), dict(mode=mode))
                         return
+        if mode in ("volume", "none"):
+            # the cell-mass option without a static table: a density column in g/cm^3
+            with warnings.catch_warnings():
+                warnings.simplefilter("ignore")
+                r4 = CliRunner().invoke(st.main, [os.path.join(ex, "input01"), "-I", mode, "-n", "11", "--cellmass", "123.25"])
+            if r4.exit_code == 0:
+                lines4 = r4.output.splitlines()
+                h4 = next((i for i, l in enumerate(lines4) if l.split()[:1] == ["V"]), None)
+                cols4 = lines4[h4].split() if h4 is not None else []
+                if "density" in cols4:
+                    rows4 = [l.split()[1:] for l in lines4[h4 + 1:] if len(l.split()) == len(cols4) + 1]
+                    V4 = numpy.array([float(x[cols4.index("V")]) for x in rows4])
+                    D4 = numpy.array([float(x[cols4.index("density")]) for x in rows4])
+                    rho4 = 123.25 / (V4 / ang3) * gcm3
+                    if not numpy.abs(D4 - rho4).max() <= 1e-5 * rho4.max():
+                        chk.violation("run-static:cellmass-without-table[%s]" % mode, "cij run-static INPUT01 -I %s --cellmass 123.25 (no static table): density %.6g at V = %.6g A^3 "
+                                      "is not 123.25 amu / V in g/cm^3 (%.6g)" % (mode, D4[0], V4[0], rho4[0]), dict(mode=mode))
+                        return
+                else:
+                    chk.violation("run-static:cellmass-without-table[%s]" % mode, "cij run-static INPUT01 -I %s --cellmass 123.25 prints no density column" % mode, dict(mode=mode))
+                    return
         for col, mod in (("v_s", df["G_VRH"]), ("v_phi", df["bm_VRH"]), ("v_p", df["bm_VRH"] + 4 / 3 * df["G_VRH"])):
             if numpy.abs(df[col].to_numpy() ** 2 * df["density"].to_numpy() - mod.to_numpy()).max() > 1e-5 * numpy.abs(mod.to_numpy()).max():
                 chk.violation("run-static:%s[%s]" % (col, mode), "%s^2 * density != modulus" % col, dict(mode=mode))
